@@ -545,7 +545,7 @@ impl NativeFunctionCall {
     fn subtract_op(&self, params: &[Rc<Value>]) -> Result<Rc<dyn RTObject>, StoryError> {
         match &params[0].value {
             ValueType::Int(op1) => match params[1].value {
-                ValueType::Int(op2) => Ok(Rc::new(Value::new::<i32>(*op1 - op2))),
+                ValueType::Int(op2) => Ok(Rc::new(Value::new::<i32>(op1.wrapping_sub(op2)))),
                 _ => Err(StoryError::InvalidStoryState(
                     "Operation not available for type.".to_owned(),
                 )),
@@ -571,7 +571,7 @@ impl NativeFunctionCall {
     fn add_op(&self, params: &[Rc<Value>]) -> Result<Rc<dyn RTObject>, StoryError> {
         match &params[0].value {
             ValueType::Int(op1) => match params[1].value {
-                ValueType::Int(op2) => Ok(Rc::new(Value::new::<i32>(op1 + op2))),
+                ValueType::Int(op2) => Ok(Rc::new(Value::new::<i32>(op1.wrapping_add(op2)))),
                 _ => Err(StoryError::InvalidStoryState(
                     "Operation not available for type.".to_owned(),
                 )),
@@ -650,7 +650,7 @@ impl NativeFunctionCall {
     fn multiply_op(&self, params: &[Rc<Value>]) -> Result<Rc<dyn RTObject>, StoryError> {
         match params[0].value {
             ValueType::Int(op1) => match params[1].value {
-                ValueType::Int(op2) => Ok(Rc::new(Value::new::<i32>(op1 * op2))),
+                ValueType::Int(op2) => Ok(Rc::new(Value::new::<i32>(op1.wrapping_mul(op2)))),
                 _ => Err(StoryError::InvalidStoryState(
                     "Operation not available for type.".to_owned(),
                 )),
@@ -984,7 +984,7 @@ impl NativeFunctionCall {
 
     fn negate_op(&self, params: &[Rc<Value>]) -> Result<Rc<dyn RTObject>, StoryError> {
         match &params[0].value {
-            ValueType::Int(op1) => Ok(Rc::new(Value::new::<i32>(-op1))),
+            ValueType::Int(op1) => Ok(Rc::new(Value::new::<i32>(op1.wrapping_neg()))),
             ValueType::Float(op1) => Ok(Rc::new(Value::new::<f32>(-op1))),
             _ => Err(StoryError::InvalidStoryState(
                 "Operation not available for type.".to_owned(),
